@@ -5,7 +5,7 @@
 EXTENDS MeiLayer, Json, IOUtils, TLCExt, SequencesExt
 Batch == TLCEval(JsonDeserialize(IOEnv.CASE_FILE))
 VARIABLES tid, l
-tvars == <<mpos, mbar, mfar, mtup, mstaff, mlayer, meter, mnotes, mties, mopen, mmeasures, mdefs, mbad, tid, l>>
+tvars == <<mpos, mbar, mfar, mtup, mstaff, mlayer, meter, mnotes, mties, mopen, mmeasures, mdefs, mrep, mend, mright, mbad, tid, l>>
 Doc == Batch[tid].events
 E == Doc[l]
 TInit == tid \in 1..Len(Batch) /\ l = 1 /\ MInit
@@ -24,10 +24,12 @@ TNext == /\ l <= Len(Doc) /\ l' = l + 1 /\ tid' = tid
             \/ (E.ev = "space" /\ Silent(E, FALSE))
             \/ (E.ev = "mrest" /\ MRest(E))
             \/ (E.ev = "tie" /\ TieEl(E))
+            \/ (E.ev = "ending_start" /\ EndingStart(E))
+            \/ (E.ev = "ending_end" /\ EndingEnd)
 TSpec == TInit /\ [][TNext]_tvars
 Done == l = Len(Doc) + 1
 Report == /\ (Done => PrintT(ToJson([cid |-> Batch[tid].cid, sounding |-> SetToSeq(MSounding), rests |-> SetToSeq(MRests), measures |-> mmeasures,
-                                      defs |-> mdefs, dens |-> SetToSeq(MDens), bad |-> SetToSeq(mbad), ties_ok |-> MTiesJoinEqualPitches])))
+                                      defs |-> mdefs, repeats |-> mrep, endings |-> mend, dens |-> SetToSeq(MDens), bad |-> SetToSeq(mbad), ties_ok |-> MTiesJoinEqualPitches])))
           /\ ((~Done /\ ~ENABLED TNext) => PrintT(<<"STUCK", Batch[tid].cid, l>>))
 InvCursor == MCursorInMeasure
 InvTile == MMeasuresTile
